@@ -30,11 +30,14 @@ pub struct WbCase {
     pub value_len: u16,
     pub plain_io: bool,
     pub ttl_sweep: bool,
+    /// after the burst drained: this many single writes, one at a time, each awaited separately
+    #[serde(default)]
+    pub probes: u8,
 }
 
 fn strat() -> BoxedStrategy<WbCase> {
     (
-        prop_oneof![Just(2u8), Just(4u8), Just(6u8), Just(8u8), Just(12u8), Just(16u8)],
+        prop_oneof![Just(1u8), Just(2u8), Just(3u8), Just(4u8), Just(5u8), Just(6u8), Just(7u8), Just(8u8), Just(9u8), Just(11u8), Just(12u8), Just(13u8), Just(15u8), Just(16u8)],
         64u16..260,
         prop_oneof![3 => Just(0u16), 2 => 520u16..700, 1 => 1u16..60],
         0u8..60,
@@ -43,8 +46,9 @@ fn strat() -> BoxedStrategy<WbCase> {
         prop_oneof![Just(8u16), 20u16..400, 4000u16..9000],
         any::<bool>(),
         proptest::bool::weighted(0.25),
+        prop_oneof![3 => Just(0u8), 1 => 8u8..16],
     )
-        .prop_map(|(visible_cpus, keys, hot_updates, overwrite_pct, delete_pct, hammer, value_len, plain_io, ttl_sweep)| WbCase { visible_cpus, keys, hot_updates, overwrite_pct, delete_pct, hammer, value_len, plain_io, ttl_sweep })
+        .prop_map(|(visible_cpus, keys, hot_updates, overwrite_pct, delete_pct, hammer, value_len, plain_io, ttl_sweep, probes)| WbCase { visible_cpus, keys, hot_updates, overwrite_pct, delete_pct, hammer, value_len, plain_io, ttl_sweep, probes })
         .boxed()
 }
 
@@ -57,6 +61,7 @@ pub struct WbNotes {
     pub slow: bool,
     pub max_stall_ms: u64,
     pub other_worker_pending: bool,
+    pub probes_durable: u64,
 }
 
 const NOMINAL: Duration = Duration::from_secs(2);
@@ -203,6 +208,41 @@ pub fn judge(case: &WbCase, notes: &mut WbNotes) -> Result<(), (String, String)>
     if let Some(h) = hammer {
         let _ = h.join();
     }
+    // sparse traffic: one write at a time, each must reach the device on its own (a shard that is
+    // only drained as a side effect of its neighbours' traffic would stay pending here)
+    if verdict.is_ok() && case.probes > 0 {
+        if case.hammer {
+            // let the hammer key drain first
+            std::thread::sleep(Duration::from_millis(300));
+        }
+        for i in 0..case.probes as u16 {
+            let k = format!("wb-probe-{i:02}-{}", case.keys).into_bytes();
+            let v = val(10_000 + i, 1);
+            let _ = store.insert(&k, &v);
+            let t0 = Instant::now();
+            loop {
+                std::thread::sleep(Duration::from_millis(20));
+                if store.verif_peek(&k).is_some_and(|p| p.sector != 0) {
+                    want.insert(k.clone(), Some(v.clone()));
+                    notes.probes_durable += 1;
+                    break;
+                }
+                let stall = Duration::from_millis(max_stall.load(Ordering::Relaxed) * 5);
+                if t0.elapsed() > HARD + stall {
+                    let snap = store.verif_snapshot();
+                    let stuck: Vec<usize> = snap.shard_pending.iter().enumerate().filter(|(_, n)| **n > 0).map(|(s, _)| s).collect();
+                    verdict = Err((
+                        "single-write-never-flushed".into(),
+                        format!("a single accepted write ({}) is still not on the device {} s after the call returned, with no other traffic and no explicit flush; shards with pending entries {stuck:?} of {} shards / {} workers", String::from_utf8_lossy(&k), t0.elapsed().as_secs(), snap.shard_pending.len(), snap.worker_count),
+                    ));
+                    break;
+                }
+            }
+            if verdict.is_err() {
+                break;
+            }
+        }
+    }
     // the durable image (fsync-covered writes only) really holds the final state
     if verdict.is_ok() {
         let entries = dev.lock().unwrap().entries.clone();
@@ -304,6 +344,7 @@ pub fn run(tier: Tier, seed: u64, replay: Option<&str>) -> i32 {
             if case.hammer {
                 *c.entry("busy_neighbour".into()).or_insert(0) += 1;
             }
+            *c.entry("single_write_probes_durable".into()).or_insert(0) += notes.probes_durable;
             if notes.shards_hit >= 2 && notes.other_worker_pending {
                 let fp = env::fnv(&serde_json::to_vec(case).unwrap());
                 if n2.lock().unwrap().insert(fp) {
@@ -323,7 +364,7 @@ pub fn run(tier: Tier, seed: u64, replay: Option<&str>) -> i32 {
         tier,
         seed,
         "exploration",
-        "proptest-generated live workloads without any explicit flush on stores built with 1..8 workers/shards (2-16 visible CPUs): 64-260 distinct keys (so all shards are hit), overwrites and deletes whose old generations must be retired, optional buffer-filling burst on one key (>1024 entries in one shard), optional hammering neighbour thread, optional TTL keys removed by the sweeper, small to 9 KB values, both I/O paths. After the last call returns the harness polls (peek/snapshot hooks) until every accepted key has a device extent and, without a busy neighbour, no buffered entry or retirement is pending; then the fsync-covered image rebuilt from the I/O trace must decode (independent codec) to the final values with no superseded generation left, and recover. Violation only if not drained 15 s + 5x the largest measured scheduling stall after the last call, reproduced twice; 2 s..15 s is recorded as slow. Non-trivial: at least two shards held pending entries at the end of the burst, one of them owned by a worker other than worker 0.",
+        "proptest-generated live workloads without any explicit flush on stores built with 1..8 workers/shards (2-16 visible CPUs): 64-260 distinct keys (so all shards are hit), overwrites and deletes whose old generations must be retired, optional buffer-filling burst on one key (>1024 entries in one shard), optional hammering neighbour thread, optional TTL keys removed by the sweeper, small to 9 KB values, both I/O paths, odd and even CPU counts; a quarter of the cases continues with 8-15 single writes issued one at a time, each awaited separately (sparse traffic). After the last call returns the harness polls (peek/snapshot hooks) until every accepted key has a device extent and, without a busy neighbour, no buffered entry or retirement is pending; then the fsync-covered image rebuilt from the I/O trace must decode (independent codec) to the final values with no superseded generation left, and recover. Violation only if not drained 15 s + 5x the largest measured scheduling stall after the last call, reproduced twice; 2 s..15 s is recorded as slow. Non-trivial: at least two shards held pending entries at the end of the burst, one of them owned by a worker other than worker 0.",
     );
     ev.started = started;
     ev.evaluations = evaluations.load(Ordering::Relaxed);
